@@ -30,15 +30,19 @@ MERGE_FILES = ["ZapProofs/Props/C05.lean", "ZapProofs/Props/C06.lean", "ZapProof
 
 PROPS = {
     "C01": _p([{"gen": "C01"}, {"gen": "ENC", "seed_offset": 7}, {"gen": "C01", "vectors": True, "seed_offset": 13}],
-              ["ZapProofs.Props.C01", "ZapProofs.Props.C01Build", "ZapProofs.Props.C07", "ZapProofs.Props.Codec"],
+              ["ZapProofs.Props.C01", "ZapProofs.Props.C01Build", "ZapProofs.Props.C01Arrays", "ZapProofs.Props.C07", "ZapProofs.Props.Codec"],
               ["Zap.C01_postings", "Zap.C01_modes", "Zap.C01_postings_all_modes", "Zap.C01_absent_field", "Zap.C01_absent_term",
                "Zap.C01_postings_ascending", "Zap.C01_postings_docs",
+               "Zap.C01_arrays_refine", "Zap.C01_arrays_refine_reused", "Zap.C01_counted_ge_appended", "Zap.C01_fill_regions_exact",
+               "Zap.C01_windows_disjoint", "Zap.C01_arraysAgree", "Zap.undercount_overwrites",
                "Zap.C01_fieldTable", "Zap.C01_entries_all", "Zap.C01_termsSorted", "Zap.C01_empty", "Zap.C07_run",
                "Zap.Props.Codec.uvarint_putUvarint", "Zap.Props.Codec.uvarints_putUvarints", "Zap.Props.Codec.numUvarintBytes_eq",
                "Zap.Props.Codec.intcoder_roundtrip", "Zap.Props.Codec.intcoder_reuse", "Zap.Props.Codec.chunk_slice",
                "Zap.Props.Codec.freqHasLocs_roundtrip", "Zap.Props.Codec.getChunkSize_pos", "Zap.Props.Codec.getChunkSize_ok_of_valid",
                "Zap.Props.Codec.chunk_index_lt", "Zap.Props.Codec.memRead_put", "Zap.Props.Codec.memSkip_put"],
-              BUILD_FILES + POST_FILES + CODEC_FILES + ["ZapProofs/Props/C01.lean", "ZapProofs/ComposeLemmas.lean"]),
+              BUILD_FILES + POST_FILES + CODEC_FILES + ["ZapProofs/Props/C01.lean", "ZapProofs/ComposeLemmas.lean", "ZapModel/BuildArrays.lean",
+                                                         "ZapProofs/Props/C01Arrays.lean", "ZapProofs/ArraysLemmas1.lean", "ZapProofs/ArraysLemmas2.lean",
+                                                         "ZapProofs/ArraysLemmas3.lean", "ZapProofs/ArraysLemmas4.lean"]),
     "C02": _p([{"gen": "C02"}], ["ZapProofs.Props.C02", "ZapProofs.Props.C02Full", "ZapProofs.Props.C01Build"],
               ["Zap.C02_stored", "Zap.C02_beyond", "Zap.C02_stop", "Zap.C02_docID", "Zap.C02_docID_id", "Zap.C02_count",
                "Zap.C02_docNumbers_full", "Zap.C02_docNumbers_full_spec", "Zap.C02_maxkey_shortcut_sound", "Zap.C01_fieldTable"],
